@@ -111,9 +111,13 @@ def bat_entry(state, mb):
 
 def build(blocks, *, block_size, sector_size=512, disk_size, has_parent=False, locator=None, bitmaps=None, seqs=(5, 6),
           data_base_mb=None, file_id=0, sigs=None, name=None, disk_id=None, phys_sector=4096, bat_mb=3, meta_mb=2,
-          omit_items=(), omit_regions=(), locator_type=G_VHDX_LOCATOR, reserved_bits=0, leave_alloc=False, locator_layout="pairs"):
+          omit_items=(), omit_regions=(), locator_type=G_VHDX_LOCATOR, reserved_bits=0, leave_alloc=False, locator_layout="pairs",
+          layout="std"):
     """blocks: list over real payload blocks of (state, position|None); position = index of the block-sized slot in the
     data area.  bitmaps: {chunk_index: (position_mb_slot, bytes)} for sector-bitmap blocks (differencing).
+    layout: where the regions lie relative to the payload - "std" (metadata, BAT, then payload blocks), "regions-last"
+    (payload blocks first, then sector bitmaps, metadata and the BAT: what a relocated BAT after expanding a disk looks
+    like) or "bat-last" (metadata first, payload, BAT at the end).
     Returns (VirtualFile, info)."""
     sigs = sigs or {}
     cr = (2 ** 23 * sector_size) // block_size
@@ -128,10 +132,18 @@ def build(blocks, *, block_size, sector_size=512, disk_size, has_parent=False, l
     bmb = block_size // MB
     assert bmb * MB == block_size
     bat_len = -(-(nent * 8) // MB) * MB
+    max_pos = max([p for _, p in blocks if p is not None], default=-1)
+    if layout != "std":
+        assert data_base_mb is None
+        data_base_mb = 1 if layout == "regions-last" else meta_mb + 1
+        after = data_base_mb + (max_pos + 2) * bmb + len(bitmaps or {}) + 1
+        if layout == "regions-last":
+            meta_mb = after
+            after += 1
+        bat_mb = after
     if data_base_mb is None:
         data_base_mb = bat_mb + bat_len // MB
     # sector bitmap blocks are 1 MiB each; put them after the payload area
-    max_pos = max([p for _, p in blocks if p is not None], default=-1)
     sb_base_mb = data_base_mb + (max_pos + 2) * bmb
     raw = bytearray(nent * 8)
     for b, (st, p) in enumerate(blocks):
